@@ -45,6 +45,7 @@ def main():
     report_override = None
     shard = None
     targets = None
+    names = None
     i = 0
     while i < len(args):
         if args[i] == "--only":
@@ -61,6 +62,8 @@ def main():
             target_only = True; i += 1
         elif args[i] == "--report":
             report_override = args[i + 1]; i += 2
+        elif args[i] == "--names":
+            names = set(l.strip() for l in open(args[i + 1]) if l.strip()); i += 2
         elif args[i] == "--targets":
             targets = set(args[i + 1].split(",")); i += 2
         elif args[i] == "--shard":
@@ -72,6 +75,8 @@ def main():
     patches = sorted(glob.glob(f"{VERIF}/seeded/*/patch.diff")) + sorted(glob.glob(f"{VERIF}/mutants/*.patch"))
     if only:
         patches = [p for p in patches if only in p]
+    if names:
+        patches = [p for p in patches if (os.path.basename(os.path.dirname(p)) if p.endswith("patch.diff") else os.path.basename(p)[:-6]) in names]
     if targets:
         def target_of(p):
             mp = os.path.join(os.path.dirname(p), "meta.json")
